@@ -54,6 +54,29 @@ HELPERS_OVERFLOW = ["alu_capture_overflow", "alu_boolean_overflow"]
 FAMILY = {}
 
 
+def arm_operators(F, f, blocks, depth):
+    """operators used in the given blocks of f, following calls into private helpers of fuel_vm::interpreter::alu
+    (so that extracting an arm's body into a helper function does not change what the arm is seen to compute)"""
+    got = set()
+    for b in blocks:
+        for s in f["bbs"][b]["s"]:
+            if s[0] == "=" and s[2][0] == "bin" and re.match(r"^(Add|Mul|BitXor|Sub|Shl|Shr)", s[2][1]):
+                got.add("bin:" + re.sub(r"(WithOverflow|Unchecked)$", "", s[2][1]))
+            if s[0] == "=" and s[2][0] == "un":
+                got.add("un:" + s[2][1])
+        t = f["bbs"][b]["t"]
+        if t[0] == "call" and "def" in t[1]:
+            nm = callee_name(t[1])
+            m = re.search(r"::(overflowing_sub|checked_pow|checked_shl|checked_shr|overflowing_add|overflowing_mul|wrapping_\w+)$", nm)
+            if m:
+                got.add("call:" + m.group(1))
+            elif depth > 0 and nm.startswith("fuel_vm::interpreter::alu::") and not re.search(r"::(split_overflow|truncate)$", nm):
+                g = F.fn(nm)
+                if g is not None:
+                    got |= arm_operators(F, g, [i for i, bb in enumerate(g["bbs"]) if not bb.get("cu")], depth - 1)
+    return got
+
+
 def run(F, rep, tier, allfacts):
     cg = CallGraph(F, ["fuel_vm"])
     S = Summaries(cg)
@@ -282,18 +305,7 @@ def run(F, rep, tier, allfacts):
                 for n2, t2 in arms.items():
                     if n2 != nm:
                         mine = mine - cfg.reachable_incl(t2)
-                got = set()
-                for b in mine:
-                    for s in f["bbs"][b]["s"]:
-                        if s[0] == "=" and s[2][0] == "bin" and re.match(r"^(Add|Mul|BitXor|Sub|Shl|Shr)", s[2][1]):
-                            got.add("bin:" + re.sub(r"(WithOverflow|Unchecked)$", "", s[2][1]))
-                        if s[0] == "=" and s[2][0] == "un":
-                            got.add("un:" + s[2][1])
-                    t = f["bbs"][b]["t"]
-                    if t[0] == "call":
-                        m = re.search(r"::(overflowing_sub|checked_pow|checked_shl|checked_shr|overflowing_add|overflowing_mul|wrapping_\w+)$", callee_name(t[1]))
-                        if m:
-                            got.add("call:" + m.group(1))
+                got = arm_operators(F, f, mine, 2)
                 rep.check(want.get(nm, set()) <= got and not (got - want.get(nm, set()) - {"bin:Shr"}), "TAB-narrowint", "arm:" + nm, "%s:%s" % (f["file"], f["line"]),
                           "MathOp::%s must use %s; its arm uses %s" % (nm, sorted(want.get(nm, [])), sorted(got)))
         casts = [describe(f, rv[2], depth=8) for i, j, p, rv, line in assignments(f) if rv[0] == "cast" and rv[3] == "u32"]
